@@ -148,6 +148,12 @@ def _gen_s2p(rng, tier):
     ccs = []
     for _ in range(rng.randint(0, 3) if rng.random() < 0.4 else 0):
         ccs.append([H(_time_near(rng, fps, rng.randint(0, T + 1))), rng.randint(0, 127), rng.randint(0, 127)])
+    if ccs and rng.random() < 0.6:
+        # several changes of one controller inside one frame, stored in any order: the latest in time wins
+        t0, num, _ = ccs[0]
+        for _ in range(rng.randint(1, 2)):
+            ccs.append([H(F(t0) + rng.choice([0.0, 0.2, 0.4, 0.7]) / fps), num, rng.randint(0, 127)])
+        rng.shuffle(ccs)
     return {'op': 's2p', 'input': {'cfg': cfg, 'notes': notes, 'ccs': ccs}}
 
 
@@ -505,6 +511,17 @@ def oracle(case, io):
     if io[0] != 'OK':
         if op == 'grid':
             return {'kind': 'grid-roundtrip-raises', 'fps': F(a['fps']), 'exc': io[1]}
+        if op == 's2p' and io[0] == 'EXC':
+            # a well-formed sequence in a plain configuration must convert: every velocity within max_velocity,
+            # every note inside total_time, known onset mode, no delay, occupancy off, overlapping onsets
+            c = a['cfg']
+            tot = F(c['total'])
+            inr = [n for n in a['notes'] if c['min_pitch'] <= n[0] <= c['max_pitch']]
+            if (c['mode'] in MODES and F(c['occ']) == 0.0 and F(c['delay_ms']) == 0.0 and c['overlap']
+                    and all(n[1] <= c['max_vel'] for n in inr)
+                    and all(0 <= F(n[2]) <= F(n[3]) <= tot for n in inr)
+                    and all(0 <= F(t) for t, _, _ in a['ccs'])):
+                return {'kind': 'valid-sequence-rejected', 'fps': F(c['fps']), 'exc': io[1]}
         return None
     if op == 's2p':
         return _oracle_s2p(a, io)
@@ -631,6 +648,29 @@ def _oracle_s2p(a, io):
                 exp[i][p - mn] = 1
         if exp != ons:
             return {'kind': 'onset-window', 'fps': fps}
+    if F(c['occ']) == 0.0:
+        # offsets: [int(t*fps), max(+1, ceil((t + length/1000)*fps))) with t = min(end, total - length/1000)
+        ol = F(c['offset_len_ms']) / 1000.
+        exp = [[0] * P for _ in range(rows)]
+        neg = False
+        for (p, v, s, e) in notes:
+            t = min(e, total - ol)
+            sf = int(t * fps)
+            ef = max(sf + 1, int(math.ceil((t + ol) * fps)))
+            neg = neg or sf < 0 or t < 0
+            for i in range(max(sf, 0), min(ef, rows)):
+                exp[i][p - mn] = 1
+        if not neg and exp != [unmask(m, P) for m in io[4]]:
+            return {'kind': 'offset-frames', 'fps': fps}
+        # control changes: value + 1 in frame int(time*fps), the latest change of a frame wins
+        cc = {}
+        for t, num, val in sorted(((F(t), num, val) for t, num, val in a['ccs']), key=lambda x: x[0]):
+            fr = int(t * fps)
+            if 0 <= fr < rows:
+                cc[(fr, num)] = val + 1
+        if all(F(t) >= 0 for t, _, _ in a['ccs']) and \
+                sorted([k[0], k[1], v] for k, v in cc.items() if v) != io[7]:
+            return {'kind': 'control-change-frames', 'fps': fps}
     # at least one frame per in-range note that starts inside the roll
     if c['overlap'] and not c['blank']:
         for (p, v, s, e) in notes:
